@@ -6,8 +6,10 @@ import Operon.Model.Cffl
   cfg <gate> <breakerOn> <threshold> <timeoutUs> <cacheOn> <ttlUs> [<budget> [stub|real]]   -> "ok"
   run <pid|u<pid>> <zVerdict|exc..> <yVerdict|exc..>                        -> result ; stats
       agent exceptions: exc / excK / excR = an Exception that can be rendered (RuntimeError, KeyError without
-      arguments, one whose __repr__ raises), excS = an Exception whose __str__ raises, excB = a BaseException;
-      u:<VERDICT> = that verdict with a payload whose __str__ raises (`runP`)
+      arguments, one whose __repr__ raises), excS = an Exception whose __str__ raises (answered with the same blocked
+      ERROR reply: the handler renders through `_describe`), excB = a BaseException;
+      u:<VERDICT> = that verdict with a payload whose __str__ raises (`runP true`: the code as it is renders through
+      `_describe`, so the payload does not matter)
   set onblock|onpermit none|ok|raise          -> "- ; stats"   loop.on_block / loop.on_permit re-assigned: not set,
       a callable that returns, a callable that raises HookError (the result it was given is shown before `!HookError`)
   adv <us> | resetcb | clearcache                                           -> "- ; stats"
@@ -67,10 +69,10 @@ def effective (d : DSt) (p : Prompt) (zr yr : RespP) : Store × RespP × RespP :
       (store2, zEff, if ok2 then yr else ⟨.ret .failure, true⟩)
     | _ => (store1, zEff, yr)
 
-def runWithEnergy (d : DSt) (p : Prompt) (zr yr : RespP) : DSt × State × Out × RespP :=
+def runWithEnergy (d : DSt) (p : Prompt) (zr yr : RespP) : DSt × State × Out × RespP × RespP :=
   let (store', z', y') := effective d p zr yr
-  let r := runP d.cfg idHashes d.st p z' y'
-  ({ d with st := r.1, store := store' }, r.1, r.2, z')
+  let r := runP true d.cfg idHashes d.st p z' y'
+  ({ d with st := r.1, store := store' }, r.1, r.2, z', y')
 
 def gateOf : String → Gate
   | "and" => .and | "or" => .or | "majority" => .majority | "unanimous" => .unanimous
@@ -118,8 +120,9 @@ def showRes (r : Result) : String :=
     showBool r.cached]
 
 /-- what the caller sees: the reply, the exception a callback raised (after the result it was given), or the
-    exception `run` raised: the rendering error of an unprintable agent exception, the agent's BaseException, or
-    the UnicodeEncodeError of an un-encodable prompt -/
+    exception `run` raised: the agent's BaseException, or the UnicodeEncodeError of an un-encodable prompt
+    (`printRaised` and `nothing` with kind `agentExc` / an encodable prompt belong to the pre-fix shape and do not
+    occur with `runP true` / `deliver … false`) -/
 def showDelivery (o : Out) (enc : Bool) : Delivery → String
   | .reply r => showRes r
   | .hookRaised r => showRes r ++ " !HookError"
@@ -130,10 +133,10 @@ def showDelivery (o : Out) (enc : Bool) : Delivery → String
     | .aborted => "raise:AgentAbort"
     | _ => if enc then "raise:ValueError" else "raise:UnicodeEncodeError"   -- payload rendering / prompt encoding
 
-/-- the tail of `run` (statistics, callbacks, console) for the request for prompt `p` handled as `o`; `zOk`: the
-    executor's payload can be rendered -/
-def tail (d : DSt) (p : Prompt) (zOk : Bool) (o : Out) : DSt × String :=
-  let (t, dl) := deliver d.hooks d.tally o (!d.silent && !zOk)
+/-- the tail of `run` (statistics, callbacks, console) for the request for prompt `p` handled as `o`; the console
+    output renders through `_describe` and cannot fail (`deliver … false`) -/
+def tail (d : DSt) (p : Prompt) (o : Out) : DSt × String :=
+  let (t, dl) := deliver d.hooks d.tally o false
   ({ d with tally := t }, showDelivery o p.enc dl)
 
 def showEvent : BEvent → String
@@ -183,9 +186,9 @@ def ph (d : DSt) (op : PhaseOp) : DSt × Option Out :=
   ({ d with st := r.1 }, r.2)
 
 /-- the phase at which a request is answered, followed by the tail of `run` -/
-def endPhase (d : DSt) (p : Prompt) (zOk : Bool) (op : PhaseOp) (inner : List String) : DSt × List String :=
+def endPhase (d : DSt) (p : Prompt) (op : PhaseOp) (inner : List String) : DSt × List String :=
   match ph d op with
-  | (d', some o) => let (d'', r) := tail d' p zOk o; (d'', r :: inner)
+  | (d', some o) => let (d'', r) := tail d' p o; (d'', r :: inner)
   | (d', none) => (d', "?" :: inner)
 
 /-- A nest of overlapping requests as a phase history: every state change below is one `phaseStep` (the energy
@@ -195,7 +198,7 @@ def nestRun (d : DSt) : List Level → DSt × List String
   | L :: rest =>
     let skipped := rest.map fun _ => "-"
     match ph d (.lookup L.p) with
-    | (d0, some o) => let (d0', r) := tail d0 L.p true o; (d0', r :: skipped)
+    | (d0, some o) => let (d0', r) := tail d0 L.p o; (d0', r :: skipped)
     | (d0, none) =>
       let d1 := (ph d0 .execCall).1
       let (d2, inner) := if L.atExec then
@@ -206,9 +209,9 @@ def nestRun (d : DSt) : List Level → DSt × List String
       let d3 := { d2 with store := store1 }
       let zE : RespP := if ok1 then L.z else ⟨.ret .failure, true⟩
       match zE.resp with
-      | .exc => endPhase d3 L.p true .agentRaised inner
-      | .excU => endPhase d3 L.p true .agentRaisedU inner
-      | .excB => endPhase d3 L.p true .agentAborted inner
+      | .exc => endPhase d3 L.p .agentRaised inner
+      | .excU => endPhase d3 L.p .agentRaisedU inner
+      | .excB => endPhase d3 L.p .agentAborted inner
       | .ret zc =>
         let d4 := (ph d3 .assessCall).1
         let (d5, inner) := if L.atExec then (d4, inner) else
@@ -218,15 +221,10 @@ def nestRun (d : DSt) : List Level → DSt × List String
         let d6 := { d5 with store := store2 }
         let yE : RespP := if ok2 then L.y else ⟨.ret .failure, true⟩
         match yE.resp with
-        | .exc => endPhase d6 L.p true .agentRaised inner
-        | .excU => endPhase d6 L.p true .agentRaisedU inner
-        | .excB => endPhase d6 L.p true .agentAborted inner
-        | .ret yc =>
-          -- `_apply_gate_logic` raises while rendering a payload: the finish phase does not happen (`runP`)
-          if L.p.enc && renderFails d6.cfg.gate zE yE then
-            let (d7, r) := tail d6 L.p true ⟨.raised, none⟩
-            (d7, r :: inner)
-          else endPhase d6 L.p zE.payloadOk (.finish L.p zc yc) inner
+        | .exc => endPhase d6 L.p .agentRaised inner
+        | .excU => endPhase d6 L.p .agentRaisedU inner
+        | .excB => endPhase d6 L.p .agentAborted inner
+        | .ret yc => endPhase d6 L.p (.finish L.p zc yc) inner   -- whatever the payloads (`_describe`)
 
 def nestLine (d : DSt) (toks : List String) : DSt × String :=
   let ls := levelsOf toks
@@ -245,16 +243,16 @@ def step (d : DSt) (toks : List String) : DSt × String :=
   | ["cfg", g, b, thr, tmo, c, ttl, bud, _] =>
     ({ cfg := mkCfg g b thr tmo c ttl, st := {}, store := { atp := natD bud, cap := natD bud } }, "ok")
   | ["run", p, z, y] =>
-    let (d1, s', o, zE) := runWithEnergy d (promptOf p) (respOf z) (respOf y)
-    let (d', shown) := tail d1 (promptOf p) zE.payloadOk o
+    let (d1, s', o, zE, yE) := runWithEnergy d (promptOf p) (respOf z) (respOf y)
+    let (d', shown) := tail d1 (promptOf p) o
     (d', shown ++ " ; " ++ showStatsD d' ++ " ## " ++ tags d.cfg d.st s' o
       ++ (if d'.store.atp = d.store.atp ∧ s'.execCalls ≠ d.st.execCalls then " energy:refused" else "")
       ++ (if d'.tally.blockHookCalls ≠ d.tally.blockHookCalls then " hook:block" else "")
       ++ (if d'.tally.permitHookCalls ≠ d.tally.permitHookCalls then " hook:permit" else "")
       ++ (if shown.endsWith "!HookError" then " hook:raised" else "")
-      ++ (if shown.endsWith "!ValueError" then " print:raised" else "")
-      ++ (if o.kind = .raised ∧ (promptOf p).enc then " payload:unrenderable" else "")
-      ++ (if o.kind = .agentExc ∧ o.result.isNone then " exc:unprintable" else ""))
+      ++ (if !d.silent && !zE.payloadOk && (o.kind matches .gated .success) then " print:unrenderable" else "")
+      ++ (if (o.kind matches .gated _) && renderFails d.cfg.gate zE yE then " payload:unrenderable" else "")
+      ++ (if o.kind = .agentExc ∧ handlerFails zE.resp yE.resp then " exc:unprintable" else ""))
   | ["adv", us] =>
     let (s', _) := Cffl.step d.cfg idHashes d.st (.adv (natD us))
     let d' := { d with st := s' }
